@@ -69,6 +69,15 @@ AXIOM_ALLOW = {
     # reported in the evidence and named in DESIGN.md section 6.  (none needed so far)
 }
 
+PRIMITIVE_TYPES = {"float", "int", "PrimFloat.float", "Uint63.int", "PrimInt63.int", "Floats.PrimFloat.float",
+                   "Numbers.Cyclic.Int63.PrimInt63.int", "Coq.Floats.PrimFloat.float"}
+
+
+def is_primitive(name):
+    """a kernel primitive type (float, int): NOT the FloatAxioms/Uint63 specification axioms"""
+    return name in PRIMITIVE_TYPES
+
+
 FORBIDDEN = re.compile(
     r"\b(Admitted|admit|Axiom|Axioms|Parameter|Parameters|Conjecture|Conjectures|Abort All)\b"
     r"|Unset\s+Guard|bypass_check|type-in-type|impredicative-set|Admit\s+Obligations|Unset\s+Positivity|Unset\s+Universe")
@@ -299,6 +308,11 @@ def proof_obligations(prop, extra_targets=()):
         for ax in re.findall(r"^([A-Za-z0-9_.']+)\s*:", m.group(1), re.M):
             if ax not in res["axioms"]:
                 res["axioms"].append(ax)
+    # kernel primitives (the binary64 / 63-bit integer types and operations behind Base/Json.v's
+    # JFloat and the FN execution instance) are listed by Print Assumptions under "Axioms:" in
+    # Coq 8.16 although they are not logical axioms; they are reported separately.
+    res["primitives"] = [a for a in res["axioms"] if is_primitive(a)]
+    res["axioms"] = [a for a in res["axioms"] if not is_primitive(a)]
     unexpected = [a for a in res["axioms"] if a.split(".")[-1] not in AXIOM_ALLOW and a not in AXIOM_ALLOW]
     res["unexpected_axioms"] = unexpected
     res["ok"] = ok and not res["broken"] and not bad and not unexpected and res["discharged"] == res["obligations"]
@@ -430,6 +444,7 @@ class Check:
         c["obligations"], c["discharged"] = p["obligations"], p["discharged"]
         c["print_assumptions_closed"] = p["closed"]
         c["axioms"] = p["axioms"]
+        c["kernel_primitives"] = p.get("primitives", [])
         c["proof_files"] = p["files"]
         c["checker_cmd"] = "cd /verif/coq && make Props/%s.vo  (coqc 8.16.1 kernel, full .vo build)" % self.prop
         self.proof = p
